@@ -7,6 +7,7 @@ and the control-code dispatch table (clause 5).
 NOT decided: the decoder's behaviour over command sequences.
 """
 import ast
+import itertools
 
 from ..core.tree import AnalysisError
 from ..core.constfold import Folder
@@ -98,6 +99,28 @@ def run(ctx, report):
                  {"reference_codes": n_ref, "table_codes": sum(len(v) for v in pacs.values()),
                   "extra_codes_consistent_with_their_7bit_value": extra_ok}, "1")
     report.count("pac_codes_compared", n_ref)
+    # every address code also SETS A STYLE (CEA-608: a PAC ends italics and underline unless it says otherwise): the reader
+    # closes an open italics span on the codes of STYLE_SETTING_COMMANDS, which is derived from the label table - so every one
+    # of the 480 address codes has to be in it, an italic one (attribute value 7) as italic, every other one as non-italic
+    labels = require_dict(folder.value(CONST, "COMMAND_LABELS"), "COMMAND_LABELS", 400)
+    styles = require_dict(folder.value(CONST, "STYLE_SETTING_COMMANDS"), "STYLE_SETTING_COMMANDS", 100)
+    italic_cmds = require_dict(folder.value(CONST, "ITALICS_COMMANDS"), "ITALICS_COMMANDS", 10)
+    odd_keys = sorted(k for k in labels if not HEX4.match(k))
+    report.check(not odd_keys, "R-TABLE-KEYS", where, "every key of COMMAND_LABELS is a four-hex-digit code word",
+                 {"ill_formed": odd_keys} if odd_keys else None, "2")
+    unstyled, misfiled = [], []
+    for hb, row in ref_pac.items():
+        for lb in row:
+            w_ = hb + lb
+            italic = ((int(lb, 16) & 0x1E) >> 1) == 7
+            if w_ not in styles:
+                unstyled.append(w_)
+            elif italic != (w_ in italic_cmds):
+                misfiled.append({"code": w_, "italic_by_its_bits": italic, "listed_as_italic": w_ in italic_cmds})
+    report.check(not unstyled and not misfiled, "R-TABLE-REF", where,
+                 "every one of the 480 address codes is a style-setting command (so that it ends an open italics span), italic exactly "
+                 "when its attribute bits say so", {"address_codes_missing_from_STYLE_SETTING_COMMANDS": sorted(unstyled),
+                                                    "wrong_class": misfiled[:5]}, "1")
     report.check(tabs == cea608.TAB_OFFSETS, "R-TABLE-REF", where, "PAC_TAB_OFFSET_COMMANDS",
                  {"found": tabs, "required": cea608.TAB_OFFSETS}, "4")
 
@@ -161,6 +184,7 @@ def run(ctx, report):
         "italics": ("R-E2E", "7", "italic nodes are balanced and cover exactly the characters sent while italics were on"),
         "times": ("R-E2E", "7", "captions split from one load share their times; loads follow each other"),
     })
+    report.section("a caption addressed one row below the previous caption", next_caption_one_row_below, ctx, report)
     report.not_decided.append(
         "decoder behaviour over command sequences beyond the folded scopes (captions of more than three rows, "
         "background colours, re-addressing a row that already has text, streams beyond the generated programs)")
@@ -332,3 +356,29 @@ def doubling_memory(ctx, report, clause):
     ok = first is not None and isinstance(first, ast.If) and "_handle_double_command" in src(first.test)
     report.check(ok, "R-MEMORY-FRESH", tw, "every code word is shown to the duplicate filter before anything else",
                  short(first) if first is not None else None, clause)
+
+
+def next_caption_one_row_below(ctx, report):
+    """Two pop-on captions, each loaded and shown on its own: the first on row r, the second on row r + 1.  The second is a
+    caption of its own - one line, at row r + 1 - not a continuation line of the first."""
+    from . import scc_e2e_fold as E2
+    C = E2.C
+    eng = E2.Engine(ctx)
+    report.covered(eng.fn)
+    bad = []
+    for d, (r1, r2) in itertools.product((1, 2), ((14, 15), (1, 2), (7, 8))):
+        lines = ["Scenarist_SCC V1.0", ""]
+        for k, (row, text) in enumerate(((r1, "ONE"), (r2, "TWO"))):
+            words = [C.CONTROL["RCL"]] * d + [C.CONTROL["ENM"]] * d + [E2.pac(row, 0)] * d + E2.text_words(text) + [C.CONTROL["EOC"]] * d
+            lines += [f"{E2.tc(1 + 2 * k, 0, False)}\t" + " ".join(words), ""]
+        lines += [f"{E2.tc(5, 0, False)}\t" + " ".join([C.CONTROL["EDM"]] * d), ""]
+        got = eng.read("\n".join(lines))
+        want = [(["ONE"], 5 + 90 * (r1 - 1) / 15), (["TWO"], 5 + 90 * (r2 - 1) / 15)]
+        if isinstance(got, tuple):
+            bad.append({"rows": (r1, r2), "raises": f"{got[1]}: {got[3]}"[:120]})
+            continue
+        seen = [([l for l in g["lines"]], g["y"]) for g in got]
+        if len(seen) != 2 or any(a[0] != b[0] or not isinstance(a[1], (int, float)) or abs(a[1] - b[1]) > 0.51 for a, b in zip(seen, want)):
+            bad.append({"rows": (r1, r2), "codes": "doubled" if d == 2 else "single", "captions (lines, y%)": seen, "required": want})
+    report.check(not bad, "R-E2E", eng.fn, "a caption addressed one row below the previous caption is a caption of its own, at its own row",
+                 {"mismatches": bad[:3]}, "7")
